@@ -93,7 +93,15 @@ def run(ctx):
     n0 = len(ctx.reports)
     d_ar = evaltables.rule_application(ctx, "C08-arity-per-application", {"arity"})
     d_tr = evaltables.rule_trampoline(ctx, "C08-arity-per-application", {"arity"})
-    if d_ar >= 12 and d_tr >= 3:
+    if len(ctx.reports) > n0 and arity_checked_by_callers(fb, ap):
+        # the table applies apply_procedure itself; on this tree every caller of it checks the count first (a function that builds
+        # the ArgumentMissMatch error dominates every call of apply_procedure): what the table saw is not what a program can reach
+        moved = [r for r in ctx.reports[n0:] if r["rule"] == "C08-arity-per-application"]
+        ctx.reports[n0:] = [r for r in ctx.reports[n0:] if r["rule"] != "C08-arity-per-application"]
+        ctx.undecided("C08-arity-per-application", "checked-by-callers", "apply_procedure applies without checking the argument count, and every "
+                      "one of its callers checks it first (%d table row(s) not counted): not decided by the tables of apply_procedure" % len(moved), where_of(ap))
+        arity_ok = None
+    elif d_ar >= 12 and d_tr >= 3:
         arity_ok = len(ctx.reports) == n0
     else:
         with ctx.fallback():
@@ -504,6 +512,27 @@ def _straight(f, b, n=12):
 
 CELL_WRITES = ("Cell::set", "Cell::replace", "Cell::take", "Cell::swap", "Cell::update", "RefCell::borrow_mut", "RefCell::replace", "RefCell::replace_with",
                "RefCell::swap", "RefCell::take", "Cell<T>::set", "Cell<T>::replace", "RefCell<T>::borrow_mut", "RefCell<T>::replace")
+
+
+def arity_checked_by_callers(fb, ap):
+    """does every call of apply_procedure (outside itself) sit behind a call, in the same function, of one function of the crate that
+    builds the ArgumentMissMatch error — the count checked where the call is made instead of where it is applied?"""
+    checkers = {g.name for g in fb.all("lib") if g.name != ap.name and not g.derived and "::tests::" not in g.name
+                and any(v == "ArgumentMissMatch" for _, _, _, _, v in mir.aggregates(g))}
+    if not checkers:
+        return False
+    sites = [(f, b, t) for f, b, t in fb.call_sites(lambda t: callee(t) == ap.name) if f.name.split("::{closure")[0] != ap.name
+             and "::tests::" not in f.name and not f.name.endswith("_test")]
+    if not sites:
+        return False
+    for f, b, t in sites:
+        if f.name in checkers:
+            continue                       # (the caller builds the error itself)
+        dom = f.dominators()
+        chk = [bb for bb, tt in f.calls() if callee(tt) in checkers]
+        if not any(bb in dom.get(b, ()) and bb != b for bb in chk):
+            return False
+    return True
 
 
 def state_restored_rule(ctx, fb):
